@@ -317,7 +317,15 @@ func (d *dhcpRun) history() {
 			req.Options = append(req.Options, refdec.DHCPOpt{Code: 54, Data: ip4b(nic.HostIP)}, refdec.DHCPOpt{Code: 50, Data: ip4b(a)})
 		case "selother":
 			req = newMsg(refdec.DHCPRequest)
-			req.Options = append(req.Options, refdec.DHCPOpt{Code: 54, Data: ip4b(nic.RouterIP)}, refdec.DHCPOpt{Code: 50, Data: ip4b(d.pickAddr(1, cl, cls, false))})
+			if cl.acked.IsValid() && (step+int(d.idx))%3 == 0 {
+				// the other server is named, the address is not: no requested address option, ciaddr carries the address the
+				// client has (a client re-using its address with the server it selected). Still not ours to acknowledge
+				req.Options = append(req.Options, refdec.DHCPOpt{Code: 54, Data: ip4b(nic.RouterIP)})
+				req.CI, srcIP = cl.acked, cl.acked
+				c.Obs("requests_to_another_server_naming_the_address_in_ciaddr", 1)
+			} else {
+				req.Options = append(req.Options, refdec.DHCPOpt{Code: 54, Data: ip4b(nic.RouterIP)}, refdec.DHCPOpt{Code: 50, Data: ip4b(d.pickAddr(1, cl, cls, false))})
+			}
 		case "renew", "reboot":
 			freshXID()
 			req = newMsg(refdec.DHCPRequest)
